@@ -59,13 +59,13 @@ type histScn struct {
 	ops                          []histOp
 	script                       []histAct
 	end                          int64
-	lp                           bool // a ResumeEvent listener has another goroutine call Pause() and waits for it
+	lst                          string // listener-driven actions "event:ACTS,..." (another goroutine performs ACTS while the event is being delivered; letters P Pause, X stop, F Flush)
 }
 
 func (s histScn) key() string {
 	var sb strings.Builder
-	fmt.Fprintf(&sb, "hist gen=%d buf=%d lim=%d maxcap=%d cap=%d flush=%d capi=%d audit=%d mot=%d pause=%d eof=%d mcb=%d end=%d lp=%d w=",
-		s.gen, s.buf, b01(s.lim), s.maxcap, s.cap0, s.flush, s.capi, s.audit, s.mot, s.pau, b01(s.eof), s.mcb, s.end, b01(s.lp))
+	fmt.Fprintf(&sb, "hist gen=%d buf=%d lim=%d maxcap=%d cap=%d flush=%d capi=%d audit=%d mot=%d pause=%d eof=%d mcb=%d end=%d lst=%s w=",
+		s.gen, s.buf, b01(s.lim), s.maxcap, s.cap0, s.flush, s.capi, s.audit, s.mot, s.pau, b01(s.eof), s.mcb, s.end, dash(s.lst))
 	for i, w := range s.ws {
 		if i > 0 {
 			sb.WriteByte(';')
@@ -103,7 +103,10 @@ func histFromKV(kv map[string]string) histScn {
 	i64 := func(k string) int64 { n, _ := strconv.ParseInt(kv[k], 10, 64); return n }
 	s := histScn{gen: atoi(kv["gen"]), buf: atou(kv["buf"]), lim: kv["lim"] == "1", maxcap: atou(kv["maxcap"]), cap0: atou(kv["cap"]),
 		flush: i64("flush"), capi: i64("capi"), audit: i64("audit"), mot: i64("mot"), pau: i64("pause"), eof: kv["eof"] == "1",
-		mcb: atoi(kv["mcb"]), end: i64("end"), lp: kv["lp"] == "1"}
+		mcb: atoi(kv["mcb"]), end: i64("end"), lst: kv["lst"]}
+	if s.lst == "-" {
+		s.lst = ""
+	}
 	split := func(v string) []string {
 		if v == "" || v == "-" {
 			return nil
@@ -350,7 +353,15 @@ func runHist(s histScn) (line string) {
 		for i, o := range s.ops {
 			f.newOp(i, o.w, o.cost, o.batchable)
 		}
-		lpLeft := 2
+		lstActs := map[string]string{}
+		lstLeft := map[string]int{}
+		for _, e := range strings.Split(s.lst, ",") {
+			if i := strings.Index(e, ":"); i > 0 {
+				lstActs[e[:i]] = e[i+1:]
+				lstLeft[e[:i]] = 2
+			}
+		}
+		stopSeq := 0
 		f.listen(func(event string, val int, msg string, objs []int) {
 			switch event {
 			case "batch":
@@ -366,16 +377,38 @@ func runHist(s histScn) (line string) {
 			default:
 				lg.add("ev:%s:%d", event, val)
 			}
-			if event == "resume" && s.lp && lpLeft > 0 {
-				// another goroutine pauses again while the resume event is still being delivered
-				lpLeft--
+			if acts, ok := lstActs[event]; ok && lstLeft[event] > 0 {
+				// another goroutine acts while this event is still being delivered (the loop goroutine is inside Emit)
+				lstLeft[event]--
 				done := make(chan struct{})
-				go func() { lg.add("act:P"); f.pause(); close(done) }()
+				go func() {
+					defer close(done)
+					for _, a := range acts {
+						switch a {
+						case 'P':
+							lg.add("act:P")
+							f.pause()
+						case 'F':
+							lg.add("act:F")
+							f.flush()
+						case 'X':
+							mu.Lock()
+							stopSeq++
+							sn := stopSeq
+							mu.Unlock()
+							lg.add("act:X:%d", sn)
+							if s.gen == 2 {
+								f.stop()
+							} else {
+								go func() { defer func() { _ = recover() }(); f.stop(); lg.add("stopret:%d", sn) }()
+							}
+						}
+					}
+				}()
 				<-done
 			}
 		})
 		holds := map[int]chan struct{}{}
-		stopSeq := 0
 		sample := func() {
 			lg.add("sample:%d:%d:%d", f.needs(), f.inbuf(), f.inflight())
 		}
@@ -412,8 +445,10 @@ func runHist(s histScn) (line string) {
 			case 'S':
 				lg.add("act:S:%s", f.start())
 			case 'X':
+				mu.Lock()
 				stopSeq++
 				sn := stopSeq
+				mu.Unlock()
 				lg.add("act:X:%d", sn)
 				if s.gen == 1 {
 					wgCalls.Add(1)
@@ -599,7 +634,16 @@ func histRandom(r *rng, profile string) histScn {
 		s.script = append(s.script, histAct{t: t, act: act})
 	}
 	s.end = t + int64(r.pick(50, 400, 1200, 3000))*ms
-	s.lp = r.chance(1, 10)
+	switch r.intn(14) {
+	case 0:
+		s.lst = "resume:P"
+	case 1:
+		s.lst = "flush-start:PX"
+	case 2:
+		s.lst = "pause:X"
+	case 3:
+		s.lst = "resume:PX"
+	}
 	// probes around the write-off instants: batches are raised at flush ticks, so sample at tick + MaxOperationTime -1ns/0/+1ns
 	if started && r.chance(1, 2) {
 		for j := 0; j < 3; j++ {
